@@ -49,6 +49,9 @@ mod signing_key;
 pub mod tests;
 mod traits;
 mod verifying_key;
+/// Verification hooks (feature `verif-hooks`): access for the external verification harness.
+#[cfg(feature = "verif-hooks")]
+pub mod verif_hooks;
 
 pub use error::{Error, FieldError, GroupError};
 pub use identifier::Identifier;
